@@ -9,7 +9,7 @@ use crate::report::{self, Report, Violation};
 use serde_json::json;
 
 const KINDS: [&str; 7] = ["struct", "unit-struct", "newtype", "unit-enum", "alg-enum", "alias", "const"];
-const MODS: [&[&str]; 3] = [&[], &["a"], &["a", "b"]];
+const MODS: [&[&str]; 6] = [&[], &["a"], &["a", "b"], &["fn:handler"], &["a", "fn:setup"], &["const:"]];
 const SKIPS: [Skip; 3] = [Skip::No, Skip::Serde, Skip::Typeshare];
 
 fn make_item(i: usize, kind: &str) -> Item {
@@ -84,7 +84,7 @@ pub fn gen_items(ch: &mut Chooser, max_items: usize) -> ItemsCase {
         let k = *ch.pick("kind", &KINDS);
         let ann = ch.choose("annotation", 4); // 0 bare, 1 none, 2 and 3 path-qualified
         let annotated = ann != 1;
-        let m = ch.choose("mod_depth", 3);
+        let m = ch.choose("mod_depth", MODS.len());
         items.push((k, annotated, m));
         paths.push(match ann {
             2 => 1,
@@ -473,7 +473,7 @@ pub fn run(args: &[String]) -> i32 {
             report::threads(),
             u64::MAX,
         );
-        merge(&mut rep, "items", accs, &stats, json!({"max_items": max_items, "item_kinds": KINDS, "annotation": ["#[typeshare]", "none", "#[typeshare::typeshare]", "#[::typeshare::typeshare]"], "module_depths": [0, 1, 2], "languages": 6}));
+        merge(&mut rep, "items", accs, &stats, json!({"max_items": max_items, "item_kinds": KINDS, "annotation": ["#[typeshare]", "none", "#[typeshare::typeshare]", "#[::typeshare::typeshare]"], "placement": ["top level", "mod a", "mod a::b", "inside fn handler() { }", "inside mod a { fn setup() { } }", "inside const _: () = { };"], "languages": 6}));
     }
     {
         let (accs, stats) = explore(
